@@ -15,6 +15,7 @@ import (
 	"strconv"
 	"strings"
 	"sync"
+	"sync/atomic"
 	"time"
 
 	"github.com/pingcap/log"
@@ -128,6 +129,145 @@ func (w *world) handle(r *core.RegionInfo) (out string) {
 		}
 	}()
 	return verdict(w.rc.VerifProcessRegionHeartbeat(r))
+}
+
+// race <rounds> <k> <spec>: in every round k goroutines deliver the region of the spec with k consecutive, ever
+// higher versions at the same moment, while a poller keeps reading GetRegion(id): the version it is served never
+// goes back, and after the last round the highest version is served.  Reported: the first pair of versions the
+// poller saw going back ("a>b", or "-"), the version served at the end, the served set.
+func (w *world) race(f []string) string {
+	rounds, _ := strconv.Atoi(f[1])
+	k, _ := strconv.Atoi(f[2])
+	base := regionh.ParseSpec(f[3:])
+	id := base.ID
+	stop := make(chan struct{})
+	polled := make(chan string, 1)
+	go func() {
+		var last uint64
+		bad := "-"
+		for {
+			select {
+			case <-stop:
+				polled <- bad
+				return
+			default:
+			}
+			if r := w.rc.GetRegion(id); r != nil {
+				v := r.GetRegionEpoch().GetVersion()
+				if v < last && bad == "-" {
+					bad = fmt.Sprintf("%d>%d", last, v)
+				}
+				last = v
+			}
+		}
+	}()
+	ver := base.Ver
+	for rd := 0; rd < rounds && !w.panicked; rd++ {
+		var wg sync.WaitGroup
+		start := make(chan struct{})
+		for j := 0; j < k; j++ {
+			ver++
+			sp := *base
+			sp.Ver = ver
+			r := sp.Region()
+			wg.Add(1)
+			go func() {
+				defer wg.Done()
+				<-start
+				w.handle(r)
+			}()
+		}
+		close(start)
+		wg.Wait()
+	}
+	close(stop)
+	bad := <-polled
+	if w.panicked {
+		return "panic"
+	}
+	final := "nil"
+	if r := w.rc.GetRegion(id); r != nil {
+		final = strconv.FormatUint(r.GetRegionEpoch().GetVersion(), 10)
+	}
+	return fmt.Sprintf("bad=%s final=%s S=%s", bad, final, w.served())
+}
+
+// scanrace <n> <passes>: n contiguous regions are reported; then one goroutine keeps merging and splitting
+// neighbouring pairs around positions 128 and 256 (heartbeats, one at a time) while three others keep calling
+// ScanRegions("", "", 0).  Every answer is looked at: the first two neighbouring entries that are not in key
+// order / not disjoint are reported in full ("-" when there are none); the Lean monitor judges them.
+func (w *world) scanRace(f []string) string {
+	n, _ := strconv.Atoi(f[1])
+	passes, _ := strconv.Atoi(f[2])
+	key := func(i int) []byte {
+		if i <= 0 || i >= n {
+			return []byte{}
+		}
+		return []byte(fmt.Sprintf("k%05d", i))
+	}
+	mk := func(i int, a, b int, ver uint64) *core.RegionInfo {
+		id := uint64(i + 1)
+		sp := &regionh.Spec{ID: id, Start: key(a), End: key(b), Ver: ver, Conf: 1, Term: 1, SizeBytes: 10 << 20,
+			Leader: id*10 + 1, Peers: []*metapb.Peer{{Id: id*10 + 1, StoreId: 1}, {Id: id*10 + 2, StoreId: 2}, {Id: id*10 + 3, StoreId: 3}}}
+		return sp.Region()
+	}
+	version := make([]uint64, n+1)
+	for i := 0; i < n; i++ {
+		version[i] = 1
+		if v := w.handle(mk(i, i, i+1, 1)); v != "ok" {
+			return "setup-" + v
+		}
+	}
+	var stop int32
+	var bad atomic.Value
+	var rwg sync.WaitGroup
+	for r := 0; r < 3; r++ {
+		rwg.Add(1)
+		go func() {
+			defer rwg.Done()
+			for atomic.LoadInt32(&stop) == 0 && bad.Load() == nil {
+				regions := w.rc.ScanRegions([]byte(""), []byte(""), 0)
+				for j := 1; j < len(regions); j++ {
+					prev, cur := regions[j-1], regions[j]
+					if len(prev.GetEndKey()) == 0 || bytes.Compare(prev.GetEndKey(), cur.GetStartKey()) > 0 {
+						bad.Store(regionh.Render(prev) + ";" + regionh.Render(cur))
+						break
+					}
+				}
+			}
+		}()
+	}
+	var spots []int
+	for _, c := range []int{128, 256, 384} {
+		for i := c - 8; i < c+8 && i+1 < n; i += 2 {
+			if i >= 0 {
+				spots = append(spots, i)
+			}
+		}
+	}
+	for p := 0; p < passes && bad.Load() == nil && !w.panicked; p++ {
+		for _, i := range spots {
+			v := version[i]
+			if version[i+1] > v {
+				v = version[i+1]
+			}
+			v++
+			w.handle(mk(i, i, i+2, v)) // merge: region i takes over the range of region i+1
+			v++
+			w.handle(mk(i, i, i+1, v)) // split again
+			w.handle(mk(i+1, i+1, i+2, v))
+			version[i], version[i+1] = v, v
+		}
+	}
+	atomic.StoreInt32(&stop, 1)
+	rwg.Wait()
+	if w.panicked {
+		return "panic"
+	}
+	if b := bad.Load(); b != nil {
+		return "bad=" + b.(string)
+	}
+	return "bad=-"
 }
 
 func (w *world) letGo() {
@@ -352,6 +492,10 @@ func (w *world) exec(op string) string {
 			}
 		}
 		return fmt.Sprintf("%s S=%s M=%s", strings.Join(res, ","), w.served(), w.stored())
+	case len(f) >= 13 && f[0] == "race":
+		return w.race(f)
+	case len(f) == 3 && f[0] == "scanrace":
+		return w.scanRace(f)
 	case len(f) == 2 && f[0] == "get":
 		return regionh.Render(w.rc.GetRegion(u(f[1])))
 	case len(f) == 2 && f[0] == "bykey":
@@ -449,18 +593,19 @@ func (r *region) clone() *region {
 }
 
 type gen struct {
-	w      *world
-	t      *trace.W
-	r      *rng.R
-	mode   int // 0: two-byte keys 1..40, 1: three-byte keys up to 10^6
-	stores int
-	nextID uint64
-	nextP  uint64
-	regs   []*region // the TiKV side, in key order
-	pool   []string  // emitted, not yet (or no longer exclusively) delivered heartbeats
-	kinds  map[string]int
-	conc   bool
-	ldb    bool // this sequence runs on the leveldb region storage (flush / reload ops)
+	w          *world
+	t          *trace.W
+	r          *rng.R
+	mode       int // 0: two-byte keys 1..40, 1: three-byte keys up to 10^6
+	stores     int
+	nextID     uint64
+	nextP      uint64
+	regs       []*region // the TiKV side, in key order
+	pool       []string  // emitted, not yet (or no longer exclusively) delivered heartbeats
+	kinds      map[string]int
+	conc       bool
+	ldb        bool // this sequence runs on the leveldb region storage (flush / reload ops)
+	raceRounds int
 }
 
 func (g *gen) key() []byte {
@@ -920,6 +1065,13 @@ func (g *gen) sequence(maxOps int, kind int) {
 	for j := 0; j < 6 && len(g.pool) > 0; j++ {
 		g.deliver()
 	}
+	if !g.ldb && g.raceRounds > 0 && len(g.regs) > 0 && g.r.Bool(1, 3) {
+		// last: rounds of 8 concurrent heartbeats of ONE region with ever higher versions, and a poller
+		r := g.regs[g.r.Intn(len(g.regs))].clone()
+		r.ver += 20 // above everything delivered for this region so far
+		g.kinds["race"]++
+		g.w.run(g.t, fmt.Sprintf("race %d 8 %s", g.raceRounds, r.spec()))
+	}
 }
 
 func imin(a, b int) int {
@@ -937,6 +1089,9 @@ func main() {
 	conc := flag.Bool("conc", false, "also deliver batches of heartbeats concurrently")
 	stream := flag.Uint64("stream", 0, "PRNG stream")
 	grpcSeq := flag.Int("grpc", 2, "streams whose number is a multiple of this run one sequence through Server.RegionHeartbeat of an in-process server (0 = none)")
+	raceRounds := flag.Int("race", 30, "rounds of the same-region race op at the end of a third of the sequences (0 = none)")
+	scanRaces := flag.Int("scanrace", 1, "number of scan-versus-merge/split sequences at the end")
+	scanPasses := flag.Int("scanpasses", 30, "merge/split passes of a scanrace op")
 	ldb := flag.Int("leveldb", 6, "one sequence in this many runs on the leveldb region storage with its write batch (0 = never)")
 	flag.Parse()
 
@@ -953,12 +1108,19 @@ func main() {
 		}
 		return
 	}
-	g := &gen{w: w, t: t, r: rng.FromEnv(*stream), kinds: map[string]int{}}
+	g := &gen{w: w, t: t, r: rng.FromEnv(*stream), kinds: map[string]int{}, raceRounds: *raceRounds}
 	for s := 0; s < *n; s++ {
 		g.conc = *conc && s%4 == 3 // batches of concurrently handled heartbeats in every 4th sequence
 		g.ldb = *ldb > 0 && s%*ldb == 1 && !g.conc
 
 		g.sequence(*maxOps, []int{0, 0, 1, 0, 2}[s%5])
+	}
+	for i := 0; i < *scanRaces; i++ {
+		g.kinds["scanrace"]++
+		g.t.Comment("loglevel error")
+		renderingLogger(zapcore.ErrorLevel)
+		w.run(t, "reset")
+		w.run(t, fmt.Sprintf("scanrace %d %d", []int{300, 200, 420}[i%3], *scanPasses))
 	}
 	if *grpcSeq > 0 && int(*stream)%*grpcSeq == 0 {
 		// last, so that the server can simply be abandoned when the process ends
